@@ -213,7 +213,7 @@ def build_class(spec, build_type, eval_expr, registry=None, bases=None):
     opts = {k: (tuple(v) if isinstance(v, list) else v) for k, v in spec.get('opts', {}).items() if v is not None}
     if bases is None:
         bases = (pane.PaneBase,)
-    cls = type(spec['name'], bases, ns, **opts)
+    cls = new_class(spec['name'], bases, ns, **opts)      # (also takes a subscripted Generic[...] base)
     if registry is not None:
         registry.append(cls)
     return cls
